@@ -34,7 +34,7 @@ def spec_gni(x, imf_opts, envelope_opts, extrema_opts):
     method = imf_opts.get('stop_method', 'sd')
     step = imf_opts.get('env_step_size', 1)
     max_iters = imf_opts.get('max_iters', 1000)
-    proto = np.array(x, dtype=float)[:, None]
+    proto = np.array(x)[:, None]        # same dtype as the implementation receives; numpy promotes from the first step on
     k = 0
     while True:
         if method != 'fixed' and k > max_iters:
@@ -74,19 +74,20 @@ def spec_gni(x, imf_opts, envelope_opts, extrema_opts):
             return 'error', None, k, True
 
 
-def oracle_real(x, imf_opts, envelope_opts, extrema_opts):
-    """returns (fails, path, record for conformance, discard)"""
+def oracle_real(x, imf_opts, envelope_opts, extrema_opts, dtype=None):
+    """returns (fails, path, record for conformance, discard); dtype: the signal is handed to the implementation as that dtype
+    (integer counts / float32) while the specification is evaluated on the float64 values it denotes"""
     from emd import sift
-    x = np.asarray(x, dtype=float)
+    x_impl, x = siftcore.as_dtype(x, dtype)
     with warnings.catch_warnings():
         warnings.simplefilter('ignore')
-        kind, val, k, discard = spec_gni(x, imf_opts, envelope_opts, extrema_opts)
+        kind, val, k, discard = spec_gni(x_impl, imf_opts, envelope_opts, extrema_opts)
         if discard:
             return [], 'guard-band', None, True
         with siftcore.recording() as rec:
             try:
                 with common.time_limit(60):
-                    imf, flag = sift.get_next_imf(x[:, None], **imf_opts, envelope_opts=envelope_opts, extrema_opts=extrema_opts)
+                    imf, flag = sift.get_next_imf(x_impl[:, None], **imf_opts, envelope_opts=envelope_opts, extrema_opts=extrema_opts)
                 got = 'ok'
             except common.Timeout:
                 return [('get_next_imf', 'did not terminate within 60 s (limit %s)' % imf_opts.get('max_iters'))], 'timeout', None, False
@@ -244,13 +245,16 @@ def run(ctx):
     conf_cases, conf_meta = [], []
     for fam, x in siftcore.real_signals(ctx.seed + 4, nsig):
         imf_opts, envelope_opts, extrema_opts = siftcore.real_opts(ctx.rng)
-        fails, path, info, discard = oracle_real(x, imf_opts, envelope_opts, extrema_opts)
+        dt = ctx.rng.choice(siftcore.DTYPES)
+        fails, path, info, discard = oracle_real(x, imf_opts, envelope_opts, extrema_opts, dtype=dt)
         if discard:
             ctx.discarded += 1
             continue
+        if dt:
+            ctx.hist['dtype-' + dt] += 1
         ctx.count(('real', fam, len(x), repr(imf_opts)), 'noenv@' not in path and not path.endswith('stop@0') or True, 'real-' + path)
         ctx.tol_cmp += 1
-        inp = dict(kind='real', signal=[float(v) for v in x], imf_opts=imf_opts, envelope_opts=envelope_opts, extrema_opts=extrema_opts)
+        inp = dict(kind='real', signal=[float(v) for v in x], imf_opts=imf_opts, envelope_opts=envelope_opts, extrema_opts=extrema_opts, dtype=dt)
         for site, what in fails[:1]:
             ctx.problem('impl-violation', site, what, input=inp, tags=dict(family=fam))
         if info is not None:
@@ -327,7 +331,7 @@ def explain(inp, got, exp):
 def replay(rec):
     i = rec['input']
     if i.get('kind') == 'real':
-        f, _, _, _ = oracle_real(np.array(i['signal']), i['imf_opts'], i['envelope_opts'], i['extrema_opts'])
+        f, _, _, _ = oracle_real(np.array(i['signal']), i['imf_opts'], i['envelope_opts'], i['extrema_opts'], dtype=i.get('dtype'))
         for x in f:
             print(x)
         return bool(f)
